@@ -1,61 +1,127 @@
 (* Props/C02.v -- Readers observe only whole committed snapshots.
-   Statements only; proofs in Proofs/ReaderProofs.v.
+   Statements only; proofs in Proofs/ReaderProofs.v, Proofs/ReadResProofs.v.
 
-   Event lists interleave, in any order: every writer-side event of Model/Fault.v (commits of any
-   number of transactions -- a multi-operation transaction is ONE operation with ONE pointer flip --,
-   failures, interrupts, crashes, rollbacks) and the readers' steps: start of a read call, the single
-   pointer resolution, reads of the files the resolved version names, end of the call. *)
-From Coq Require Import ZArith List Bool Arith.
-Require Import DS.Model.Commit DS.Model.Fault DS.Model.Reader DS.Proofs.CommitProofs DS.Proofs.FaultProofs DS.Proofs.ReaderProofs.
+   Event lists interleave, in any order: every writer-side event of Model/Fault.v (commits of any number of
+   transactions, failures, interrupts, crashes, rollbacks) and the readers' steps: start of a read call, a
+   pointer resolution, the reads of the files the resolved version names, the return of the call.
+
+   Two facts about the CODE that the model would otherwise only assume are counted on the source on every run
+   (translator/gen_readres.py -> Gen/GenReadRes.v) and enter the theorems through Proofs/ReadResProofs.v:
+     * [read_budget] = the greatest number of pointer resolutions any read API (scan, to_pandas, scan_batches,
+       iter_records, iter_pandas, row_count) makes in one call.  The reader machine is run with THAT budget;
+       [C02_snapshot_read] is proved because it is 1, and [C02_snapshot_read_needs_single_resolution] shows the
+       same statement is false for a budget of 2 (the unrepaired library: up to 3).
+     * [txn_commits_per_attempt] = (1, 1): one attempt of Transaction.commit, whatever operations were queued,
+       reaches MetadataManager.commit exactly once (which flips the pointer exactly once: GenCommit.v).
+
+   What a file CONTAINS is not modelled: file names are fresh and files write-once (Model/Fault.v; C04 / C16), so
+   contents are a function [content] of the name, universally quantified in [C02_snapshot_read].  That the real
+   APIs turn the files of a version into the same rows (filters, projection, batching) is C12 / C13; that the
+   rows returned by each real API under real schedules are those of one pointer version is the harness oracle. *)
+From Coq Require Import String ZArith List Bool Arith.
+Require Import DS.Model.Commit DS.Model.Fault DS.Model.Reader DS.Proofs.CommitProofs DS.Proofs.FaultProofs DS.Proofs.ReaderProofs
+               DS.Gen.GenReadRes DS.Proofs.ReadResProofs.
 Import ListNotations.
 
-(* A read returns the rows of exactly one version: the one the pointer named at an instant i between
-   the call's start and its end; every file of that version the reader touches exists (so the read
-   never fails and never sees a partial set), whatever the writers do meanwhile. *)
+(* A read call that has returned (any API: each resolves the pointer [read_budget] = 1 times) resolved the pointer
+   at an instant i between its start and its end; none of its file reads failed (it did not raise); the files it read
+   are EXACTLY those of the version that was current after i flips, all still present whatever the writers did
+   meanwhile; hence, for any contents of the files, the rows it returns are the rows of that one snapshot. *)
 Theorem C02_snapshot_read : forall c m0 kind mr r0 next evs,
   sound c -> (forall f, In f r0 -> (f < next)%nat) ->
-  let z := rrun c (rinit (finit m0 kind mr r0 next)) evs in
-  forall r v, r_vid (r_readers z r) = Some v ->
+  let z := rrun c read_budget (rinit (finit m0 kind mr r0 next)) evs in
+  forall r e, r_end (r_readers z r) = Some e ->
     exists i st, r_idx (r_readers z r) = Some i /\ r_start (r_readers z r) = Some st
-      /\ (st <= i <= length (hist z))%nat /\ v = version_at (hist z) i
+      /\ (st <= i <= e)%nat /\ (e <= length (hist z))%nat
       /\ r_ok (r_readers z r) = true
-      /\ (forall e, r_end (r_readers z r) = Some e -> (i <= e)%nat)
-      /\ (forall f, In f (refs (rx z) v) -> In f (f_present (rx z))).
+      /\ r_got (r_readers z r) = refs (rx z) (version_at (hist z) i)
+      /\ (forall f, In f (r_got (r_readers z r)) -> In f (f_present (rx z)))
+      /\ (forall (row : Type) (content : fid -> list row),
+            result_rows content (r_readers z r) = snapshot_rows content (rx z) (version_at (hist z) i)).
 Proof. exact reader_snapshot. Qed.
 Print Assumptions C02_snapshot_read.
 
-(* Successive reads never move backwards in commit order: the pointer history only ever grows by
-   appending, so a later resolution index is never smaller and names a later-or-equal version. *)
-Theorem C02_monotone : forall c z evs, exists t, hist (rrun c z evs) = hist z ++ t.
-Proof. exact hist_monotone. Qed.
+(* ... and at every instant before it returns: no read has failed, and what it has read so far together with what
+   it still has to read is the file list of the ONE version it resolved, every file of which exists. *)
+Theorem C02_read_in_progress : forall c m0 kind mr r0 next evs,
+  sound c -> (forall f, In f r0 -> (f < next)%nat) ->
+  let z := rrun c read_budget (rinit (finit m0 kind mr r0 next)) evs in
+  forall r, r_ok (r_readers z r) = true
+    /\ forall v, r_vid (r_readers z r) = Some v ->
+         exists i, r_idx (r_readers z r) = Some i /\ v = version_at (hist z) i
+                   /\ r_got (r_readers z r) ++ r_todo (r_readers z r) = refs (rx z) v
+                   /\ (forall f, In f (refs (rx z) v) -> In f (f_present (rx z))).
+Proof. exact reader_in_progress. Qed.
+Print Assumptions C02_read_in_progress.
+
+(* Every read API resolves the pointer exactly once per call (counted on the source), and all six are covered. *)
+Theorem C02_api_single_resolution :
+  map fst read_api_resolutions = ["scan"; "to_pandas"; "scan_batches"; "iter_records"; "iter_pandas"; "row_count"]%string
+  /\ forall api lo hi, In (api, (lo, hi)) read_api_resolutions -> lo = 1%nat /\ hi = 1%nat.
+Proof. exact api_single_resolution. Qed.
+Print Assumptions C02_api_single_resolution.
+
+(* The single resolution is necessary: with two resolutions per call the conclusion "the files read are those of
+   one version" fails (witness: Proofs/ReaderProofs.v two_res_events), and holds with one. *)
+Theorem C02_snapshot_read_needs_single_resolution : ~ snapshot_read_full 2 /\ snapshot_read_full 1.
+Proof. exact snapshot_read_needs_single_resolution. Qed.
+Print Assumptions C02_snapshot_read_needs_single_resolution.
+
+(* Successive reads never move backwards in commit order: if call r1 had returned when call r2 started (two
+   successive calls through one handle; stated with the weaker hypothesis that no more flips had happened at r1's
+   return than at r2's start), r1 resolved the pointer at an index i1 <= i2, and the flips r1 had seen are a prefix
+   of the flips r2 saw. *)
+Theorem C02_monotone : forall c m0 kind mr r0 next evs,
+  sound c -> (forall f, In f r0 -> (f < next)%nat) ->
+  let z := rrun c read_budget (rinit (finit m0 kind mr r0 next)) evs in
+  forall r1 r2 e1 s2 i2,
+    r_end (r_readers z r1) = Some e1 -> r_start (r_readers z r2) = Some s2 -> (e1 <= s2)%nat ->
+    r_idx (r_readers z r2) = Some i2 ->
+    exists i1, r_idx (r_readers z r1) = Some i1 /\ (i1 <= i2)%nat
+      /\ firstn i1 (hist z) = firstn i1 (firstn i2 (hist z)).
+Proof. exact reads_monotone. Qed.
 Print Assumptions C02_monotone.
 
-(* A multi-operation transaction becomes visible all at once or not at all: it contributes exactly
-   one pointer flip; the version named before the flip does not contain it, every version from the
-   flip on does (ops of version k+1 = ops of version k ++ [that transaction]). *)
-Theorem C02_txn_atomic : forall c m0 kind mr r0 next evs,
-  sound c -> (forall f, In f r0 -> (f < next)%nat) ->
-  let w := fw (frun c (finit m0 kind mr r0 next) evs) in
-  chain_ok (w_files w) 0%nat (w_hist w) /\ NoDup (map snd (w_hist w)).
-Proof.
-  intros c m0 kind mr r0 next evs S A w.
-  pose proof (faults_keep_inv c m0 kind mr r0 next evs S A) as I. split; apply I.
-Qed.
+(* A multi-operation transaction becomes visible all at once or not at all.  Code fact (counted on the source): one
+   attempt of Transaction.commit reaches the commit protocol exactly once, snapshot deletion at most once.  Model: a
+   transaction is one operation identifier; no transaction flips the pointer twice, and the operations visible after
+   the first i flips are the initial ones followed by exactly the transactions of those i flips -- a transaction is in
+   no version before its flip and whole in every version from it on. *)
+Theorem C02_txn_atomic :
+  txn_commits_per_attempt = (1, 1)%nat /\ snd delete_snapshot_commits = 1%nat
+  /\ forall c m0 kind mr r0 next evs,
+       sound c -> (forall f, In f r0 -> (f < next)%nat) ->
+       let w := fw (frun c (finit m0 kind mr r0 next) evs) in
+       NoDup (map snd (w_hist w))
+       /\ forall i, m_ops (nthf (w_files w) (version_at (w_hist w) i))
+                    = m_ops (nthf (w_files w) 0%nat) ++ map snd (firstn i (w_hist w)).
+Proof. exact txn_atomic. Qed.
 Print Assumptions C02_txn_atomic.
 
-(* Non-vacuity: reader 0 starts, writer 0 commits, the reader resolves (sees version 1), writer 1
-   commits, writer 2 fails and rolls back its file, the reader reads both files of version 1 and ends:
-   i = 1 lies in [0, 2], all reads succeed. *)
+(* Non-vacuity.  Reader 0 starts, writer 0 commits, the reader resolves (sees version 1), writer 1 commits, writer 2
+   fails and rolls back its file, the reader reads both files of version 1 and returns: i = 1 lies in [0, 2], all
+   reads succeeded, what it read is the file list of version 1 ([0; 1]) although version 2 ([0; 1; 2]) is current
+   and file 3 came and went.  Reader 1 then starts and resolves: i = 2 >= 1. *)
 Definition ev a k := {| e_actor := a; e_kind := k |}.
 Definition ex_cfg := {| cas := false; lockkind := Excl |}.
 Definition ex_init := rinit (finit {| m_ops := []; m_cur := 1; m_lu := 100 |} (fun _ => KFresh) (fun _ => 50%nat) [0]%nat 1%nat).
+Definition ex_events : list revent :=
+  ([RStart 0; RSys (FWrite 0)] ++ map (fun e => RSys (FProto e)) (commit_script 0 0 100)
+   ++ [RPtr 0; RSys (FWrite 1)] ++ map (fun e => RSys (FProto e)) (commit_script 1 1 100)
+   ++ [RSys (FWrite 2); RSys (FProto (ev 2 (EBegin 2))); RSys (FProto (ev 2 EAbort)); RSys (FRollback 2);
+       RFile 0; RFile 0; REnd 0; RStart 1; RPtr 1])%nat.
 Example C02_nonvacuous :
-  let z := rrun ex_cfg ex_init
-     ([RStart 0; RSys (FWrite 0)] ++ map (fun e => RSys (FProto e)) (commit_script 0 0 100)
-      ++ [RPtr 0; RSys (FWrite 1)] ++ map (fun e => RSys (FProto e)) (commit_script 1 1 100)
-      ++ [RSys (FWrite 2); RSys (FProto (ev 2 (EBegin 2))); RSys (FProto (ev 2 EAbort)); RSys (FRollback 2);
-          RFile 0 0; RFile 0 1; REnd 0])%nat in
+  let z := rrun ex_cfg read_budget ex_init ex_events in
   r_vid (r_readers z 0%nat) = Some 1%nat /\ r_idx (r_readers z 0%nat) = Some 1%nat /\ r_start (r_readers z 0%nat) = Some 0%nat
-  /\ r_end (r_readers z 0%nat) = Some 2%nat /\ r_ok (r_readers z 0%nat) = true /\ r_nread (r_readers z 0%nat) = 2%nat
-  /\ refs (rx z) 1%nat = [0; 1]%nat /\ f_present (rx z) = [2; 1; 0]%nat.
+  /\ r_end (r_readers z 0%nat) = Some 2%nat /\ r_ok (r_readers z 0%nat) = true /\ r_got (r_readers z 0%nat) = [0; 1]%nat
+  /\ refs (rx z) 1%nat = [0; 1]%nat /\ refs (rx z) 2%nat = [0; 1; 2]%nat /\ f_present (rx z) = [2; 1; 0]%nat
+  /\ map snd (hist z) = [0; 1]%nat
+  /\ r_start (r_readers z 1%nat) = Some 2%nat /\ r_idx (r_readers z 1%nat) = Some 2%nat /\ r_vid (r_readers z 1%nat) = Some 2%nat.
+Proof. vm_compute. repeat split. Qed.
+
+(* ... and the two-resolution witness really returns a mixture: file 0 of version 0, then files 0 and 1 of version 1 *)
+Example C02_two_resolutions_mix :
+  let z := rrun two_res_cfg 2 (rinit (finit {| m_ops := []; m_cur := 1; m_lu := 50 |} (fun _ => KFresh) (fun _ => 50%nat) [0%nat] 1%nat)) two_res_events in
+  r_end (r_readers z 0%nat) = Some 1%nat /\ r_got (r_readers z 0%nat) = [0; 0; 1]%nat
+  /\ refs (rx z) 0%nat = [0]%nat /\ refs (rx z) 1%nat = [0; 1]%nat.
 Proof. vm_compute. repeat split. Qed.
